@@ -1,6 +1,9 @@
 package props
 
 import (
+	"reflect"
+	"sync"
+	"sync/atomic"
 	"context"
 	"fmt"
 	"math"
@@ -324,8 +327,24 @@ var checkC20Book = def("C20/books", func(c bookCase) error {
 		}
 	}
 	if len(c.BadLine) > 0 {
-		if _, err := engine.NewBook([]engine.Line{engine.Line(c.BadLine)}); err == nil {
+		bad, err := engine.NewBook([]engine.Line{engine.Line(c.BadLine)})
+		if err == nil {
 			return fmt.Errorf("NewBook accepts the line %v, whose last move is not legal", c.BadLine)
+		}
+		// whatever comes back along with the refusal must not offer an illegal reply either (callers
+		// that ignore the error play what the book says)
+		if bad != nil && !reflect.ValueOf(bad).IsZero() {
+			g := oracle.NewGame(oracle.MustFEN(oracle.InitialFEN))
+			for _, mv := range c.BadLine {
+				if _, err := bookRepliesLegal("the book returned together with the refusal of "+fmt.Sprint(c.BadLine), bad, g); err != nil {
+					return err
+				}
+				om, ok := g.Cur().Pos.FindMove(mv)
+				if !ok {
+					break
+				}
+				g.Push(om)
+			}
 		}
 	}
 	transposes := false
@@ -455,4 +474,79 @@ func movesText(g *oracle.Game) []string {
 		ret = append(ret, m.String())
 	}
 	return ret
+}
+
+// C20/parallel: the historical evaluations are functions of the game state; searches of several
+// engines (and a halted search next to its successor) evaluate at the same time.
+var checkC20Parallel = def("C20/parallel", func(cs []histEngineCase) error {
+	ctx := context.Background()
+	type job struct {
+		b    *board.Board
+		fen  string
+		want []eval.Pawns
+	}
+	evs := func(factor int) []eval.Evaluator {
+		return []eval.Evaluator{eval.Material{}, turochamp.Material{}, turochamp.Eval{}, bernstein.Eval{Factor: factor}}
+	}
+	names := []string{"eval.Material", "turochamp.Material", "turochamp.Eval", "bernstein.Eval"}
+	var jobs []job
+	for _, c := range cs {
+		b, g, err := buildBoard(zt0, gen.GameCase{FEN: c.FEN, Moves: c.Moves})
+		if err != nil {
+			return err
+		}
+		j := job{b: b, fen: g.Cur().FEN()}
+		for _, e := range evs(c.Factor) {
+			j.want = append(j.want, e.Evaluate(ctx, b.Fork())) // alone
+		}
+		jobs = append(jobs, j)
+	}
+	errs := make([]error, len(jobs))
+	var wg sync.WaitGroup
+	var start atomic.Bool
+	for i := range jobs {
+		i := i
+		wg.Add(1)
+		go func() {
+			defer wg.Done()
+			defer func() {
+				if r := recover(); r != nil {
+					errs[i] = fmt.Errorf("panic: %v", r)
+				}
+			}()
+			for !start.Load() {
+			}
+			for rep := 0; rep < 40 && errs[i] == nil; rep++ {
+				for k, e := range evs(cs[i].Factor) {
+					if got := e.Evaluate(ctx, jobs[i].b.Fork()); got != jobs[i].want[k] {
+						errs[i] = fmt.Errorf("%s evaluates %s to %v while %d other evaluations are running, and to %v alone", names[k], jobs[i].fen, got, len(jobs)-1, jobs[i].want[k])
+						break
+					}
+				}
+			}
+		}()
+	}
+	start.Store(true)
+	wg.Wait()
+	for _, err := range errs {
+		if err != nil {
+			return err
+		}
+	}
+	stats.Case("C20/parallel", stats.FP(fmt.Sprint(cs)), len(cs) > 1, fmt.Sprintf("goroutines:%d", len(cs)))
+	return nil
+})
+
+func TestC20_parallel(t *testing.T) {
+	runRapid(t, "C20/parallel", 1200, func(t *rapid.T) []histEngineCase {
+		var cs []histEngineCase
+		for i, n := 0, rapid.IntRange(2, 8).Draw(t, "goroutines"); i < n; i++ {
+			gc, _ := gen.Game(t, 30)
+			cs = append(cs, histEngineCase{FEN: gc.FEN, Moves: gc.Moves, Factor: rapid.IntRange(1, 100).Draw(t, "factor")})
+		}
+		return cs
+	}, func(cs []histEngineCase) error {
+		stats.Sample("C20/parallel", cs)
+		return checkC20Parallel(cs)
+	})
 }
